@@ -31,6 +31,20 @@ class Obj:
         self.det = det            # rows whose bounds the property determines although unknown: {c: [lo?, hi?]}
 
 
+def as_iterable(rnd, xs):
+    """the same coalitions as a list / tuple / one-shot generator / map / iterator (the API takes `Iterable`)"""
+    k = rnd.randrange(5)
+    if k == 0:
+        return list(xs)
+    if k == 1:
+        return tuple(xs)
+    if k == 2:
+        return (x for x in xs)
+    if k == 3:
+        return map(lambda x: x, xs)
+    return iter(list(xs))
+
+
 def dump_impl(g) -> tuple[list[bool], list[Fraction], list[Fraction]]:
     return ([bool(x) for x in g.are_values_known()], [frac(x) for x in g.get_lower_bounds()],
             [frac(x) for x in g.get_upper_bounds()])
@@ -103,7 +117,7 @@ def run(tier: str, budget: Budget, rnd, repo_mod) -> StreamResult:
                     o.spec.pop(c, None); o.det.pop(c, None)
                 elif op == "setvalues":
                     line = f"tab setvalues {o.name} {nlist(cs)} {rlist(vals)}"
-                    g.set_values(fvals, coal)
+                    g.set_values(fvals, as_iterable(rnd, coal))
                     for cc, vv in zip(cs[:len(vals)], vals):
                         o.spec[cc] = vv; o.det.pop(cc, None)
                 elif op == "setvalues_all":
@@ -115,7 +129,7 @@ def run(tier: str, budget: Budget, rnd, repo_mod) -> StreamResult:
                 elif op == "setknown":
                     line = f"tab setknown {o.name} {nlist(cs)} {rlist(vals)}"
                     o.spec.clear(); o.spec[0] = Fraction(0); o.det.clear()      # the reset happens first
-                    g.set_known_values([float(x) for x in vals], coal)
+                    g.set_known_values(as_iterable(rnd, [float(x) for x in vals]), as_iterable(rnd, coal))
                     for cc, vv in zip(cs[:len(vals)], vals):
                         o.spec[cc] = vv
                 elif op == "setknown_all":
@@ -127,7 +141,7 @@ def run(tier: str, budget: Budget, rnd, repo_mod) -> StreamResult:
                 elif op in ("bounds_hi", "bounds_lo"):
                     w = 1 if op == "bounds_hi" else 0
                     line = f"tab bounds {o.name} {'hi' if w else 'lo'} {nlist(cs)} {rlist(vals)}"
-                    (g.set_upper_bounds if w else g.set_lower_bounds)(fvals, coal)
+                    (g.set_upper_bounds if w else g.set_lower_bounds)(fvals, as_iterable(rnd, coal))
                     for cc in cs[:len(vals)]:
                         if cc not in o.spec:
                             o.det.setdefault(cc, [False, False])[w] = True
@@ -180,12 +194,33 @@ def run(tier: str, budget: Budget, rnd, repo_mod) -> StreamResult:
                         if ok_c and c in o.spec:
                             res.violation("get_value raised for a known coalition", {"n": n, "history": hist, "c": c})
                     try:
-                        a = g.get_values(coal)
+                        a = g.get_values(as_iterable(rnd, coal))
                         script.add(f"tab getvalues {o.name} {nlist(cs)}", rlist(a))
                         if all(x < N for x in cs) and not all(x in o.spec for x in cs):
                             res.violation("get_values returned numbers for unknown coalitions", {"n": n, "history": hist, "cs": cs})
                     except Exception as e:
                         script.add(f"tab getvalues {o.name} {nlist(cs)}", err_kind(e))
+                    # subset getters must agree with the full columns (any iterable form)
+                    if all(x < N for x in cs):
+                        K_, L_, U_ = dump_impl(g)
+                        sub = {
+                            "get_upper_bounds": ([frac(x) for x in g.get_upper_bounds(as_iterable(rnd, coal))], [U_[x] for x in cs]),
+                            "get_lower_bounds": ([frac(x) for x in g.get_lower_bounds(as_iterable(rnd, coal))], [L_[x] for x in cs]),
+                            "are_values_known": ([bool(x) for x in g.are_values_known(as_iterable(rnd, coal))], [K_[x] for x in cs]),
+                            "get_intervals": ([[frac(y) for y in x] for x in g.get_intervals(as_iterable(rnd, coal))], [[L_[x], U_[x]] for x in cs]),
+                        }
+                        kvs = g.get_known_values(as_iterable(rnd, coal))
+                        sub["get_known_values"] = ([None if math.isnan(x) else frac(x) for x in kvs],
+                                                   [U_[x] if K_[x] else None for x in cs])
+                        for nm_, (got_, want_) in sub.items():
+                            if got_ != want_:
+                                res.violation(f"{nm_}(coalitions) disagrees with the table", {"n": n, "history": hist, "cs": cs},
+                                              key=f"table:{nm_}")
+                        if c < N:
+                            one = (frac(g.get_lower_bound(Coalition(c))), frac(g.get_upper_bound(Coalition(c))),
+                                   [frac(y) for y in g.get_interval(Coalition(c))], bool(g.is_value_known(Coalition(c))))
+                            if one != (L_[c], U_[c], [L_[c], U_[c]], K_[c]):
+                                res.violation("scalar getters disagree with the table", {"n": n, "history": hist, "c": c}, key="table:scalar-getters")
                     kv = g.get_known_values()
                     script.add(f"tab getknowns {o.name}", ",".join("none" if math.isnan(x) else rs(x) for x in kv))
                     for x in range(N):
